@@ -478,6 +478,66 @@ func e3BigCase(seed uint64, n int) Case {
 				}
 			}(rd)
 		}
+		// Get() readers: every generation stamps all of its objects, so the generations
+		// one caller sees through successive Get() calls on ANY keys (and an occasional
+		// List()) never decrease, and a Get() issued after generation g's write started
+		// sees at least g-1.  (A cache that answers Get() from a side structure updated
+		// object by object passes every List() check above.)
+		var gets atomic.Int64
+		for gd := 0; gd < 2; gd++ {
+			wg.Add(1)
+			rng := rng0.Fork(uint64(gd) + 700)
+			go func(gd int) {
+				defer wg.Done()
+				last, lastKey := 0, ""
+				for it := 0; !done.Load(); it++ {
+					started := int(cur.Load())
+					i := rng.Intn(N)
+					if it%2 == 1 {
+						// favour the two ends of the list: far apart in any apply order
+						i = []int{0, N - 1, 1, N - 2}[rng.Intn(4)]
+					}
+					name := fmt.Sprintf("k%04d", i)
+					if disjoint {
+						name = fmt.Sprintf("%c%04d", 'a'+byte(rng.Intn(2)), i)
+					}
+					var o metav1.Object
+					var err error
+					viaList := it%8 == 7
+					if viaList {
+						var l []metav1.Object
+						l, err = c.List()
+						if len(l) > 0 {
+							o = l[rng.Intn(len(l))]
+						}
+					} else {
+						o, err = c.Get("ns", name)
+					}
+					if err != nil {
+						r.V("C15", "read-error", "Get/List: %v", err)
+						return
+					}
+					gets.Add(1)
+					if o == nil {
+						if !disjoint && !viaList && last > 0 {
+							r.V("C15", "torn-get", "getter %d: Get(ns/%s) returned nothing after generation %d had been seen, although every generation holds all %d keys", gd, name, last, N)
+							return
+						}
+						continue
+					}
+					g := kit.Atoi(o.GetLabels()["g"])
+					if g < last {
+						r.V("C15", "reader-went-backwards", "getter %d: read of %s returned generation %d after its previous read (%s) had returned generation %d: successive reads by one caller went backwards (a relist observed half-applied across keys)", gd, kit.Key(o), g, lastKey, last)
+						return
+					}
+					if g < started-1 {
+						r.V("C15", "stale-snapshot", "getter %d: read of %s issued after the write of generation %d had started returned generation %d although generation %d was complete", gd, kit.Key(o), started, g, started-1)
+						return
+					}
+					last, lastKey = g, kit.Key(o)
+				}
+			}(gd)
+		}
 		for g := 1; g <= G; g++ {
 			cur.Store(int64(g))
 			var err error
@@ -495,6 +555,7 @@ func e3BigCase(seed uint64, n int) Case {
 		wg.Wait()
 		r.Add("big-histories", 1)
 		r.Add("big-snapshots", snaps.Load())
+		r.Add("big-gets", gets.Load())
 		r.Key(id)
 		r.Sample = map[string]interface{}{"desc": d, "snapshots_checked": snaps.Load()}
 	}}
